@@ -61,6 +61,11 @@ def run(ctx):
     ctx.ob("C34.R1", F + ":Project.check_target", "every call walks the dependency graph again: no early return on a remembered verdict, no per-project memo of checked targets (Target.add_dependency changes the graph without telling the project)",
            not early and not memo, construct="no-memo", node=(early or memo or [None])[0], detail="; ".join(sorted({"self." + a.attr for a in memo})))
     ad = ctx.fn(F, "Target.add_dependency")
+    from ..sym import conjuncts
+    adds = [c for c in ast.walk(ad) if isinstance(c, ast.Call) and norm(c.func) == "self.dependencies.add"]
+    uncond = len(adds) == 1 and not list(conjuncts(adds[0], ad, {})) and not any(isinstance(x, (ast.Return, ast.Raise)) and x is not ad.body[-1] for x in ast.walk(ad) if isinstance(x, ast.Return))
+    ctx.ob("C34.R1", F + ":Target.add_dependency", "every declared dependency becomes an edge of the graph, a dependency of a target on itself included (it is the shortest loop and must be reported, not dropped)", uncond and norm(adds[0].args[0]) == ad.args.args[1].arg, construct="edge-always-added",
+           detail="; ".join("%s%s" % ("" if p_ else "not ", " ".join(norm(c).split())) for c, p_ in (conjuncts(adds[0], ad, {}) if adds else [])))
     ctx.ob("C34.R1", F + ":Target.add_dependency", "(context) a dependency is added by mutating the target's own set, without notifying the project", any(isinstance(c, ast.Call) and norm(c.func) == "self.dependencies.add" for c in ast.walk(ad)) and "self.project" not in norm(ad), construct="graph-mutable-after-check")
 
     run_fn = ctx.fn(F, "TaskRunner.run")
